@@ -72,7 +72,7 @@ def run_model(requests):
         return []
     inp = '\n'.join(name + ' ' + sexp(v) for name, v in requests) + '\n'
     p = subprocess.run(['bash', '-c', 'ulimit -s unlimited 2>/dev/null; exec "$0"', os.path.join(RUNNER, 'modelrun')],
-                       input=inp.encode(), stdout=subprocess.PIPE, stderr=subprocess.PIPE, timeout=3600)
+                       input=inp.encode(), stdout=subprocess.PIPE, stderr=subprocess.PIPE, timeout=900)
     lines = p.stdout.decode().split('\n')
     if lines and lines[-1] == '':
         lines.pop()
